@@ -350,7 +350,7 @@ class Explorer:
     def x_ClassDef(self, s, st):
         return [(st, None)]
 
-    def _follow_call(self, call: ast.expr, st: State):
+    def _follow_call(self, call: ast.expr, st: State, allow_gen: bool = False):
         """If `call` is a call of a repository function that the `follow` predicate selects, explore the callee in place:
         returns [(state after the callee, returned term)] - one per callee path - or None when the call is not followed.
         (Helper extraction is thereby invisible to path rules: the callee's events are spliced into the caller's path.)"""
@@ -362,7 +362,8 @@ class Explorer:
         callee = callees[0].fn
         from .norm import is_new_helper
         is_gen = any(isinstance(x, (ast.Yield, ast.YieldFrom)) for x in ast.walk(callee.node))
-        wanted = (self.follow is not None and self.follow(callee)) or (is_new_helper(callee) and not is_gen)
+        wanted = (self.follow is not None and self.follow(callee)) or (
+            is_new_helper(callee) and (allow_gen or not is_gen) and callee.qualname not in self.ctx.keep_calls)
         if callee is self.fn or not wanted or callee.is_lambda:
             return None
         from .callgraph import bind_args
@@ -412,6 +413,11 @@ class Explorer:
         followed = self._follow_call(v, st)
         if followed is not None:
             return [(ns, None) for ns, _ in followed]
+        if isinstance(v, ast.YieldFrom):
+            # `yield from self.__helper(...)` of a generator helper that is new: its yields are this generator's yields
+            spliced = self._follow_call(v.value, st, allow_gen=True)
+            if spliced is not None:
+                return [(ns, None) for ns, _ in spliced]
         n = self.normalizer(st)
         if isinstance(v, (ast.Yield, ast.YieldFrom)):
             t = n.norm(v)
